@@ -1084,7 +1084,7 @@ def r_rowwidth(P, L, s, d):
             good = False
             if cl is not None:
                 rets = set(canon(P.resolve(cl, P.sl(cl).ret(rb))) for rb in P.cfg(cl).return_blocks())
-                good = rets == {"phi(Option::None{} | Option::Some{0: elem(Iterator::rev(Iterator::enumerate([T]::iter(Option::expect([T]::last(self.cache), 'cache should be refilled before calling expand_x').entries)))).0})"}
+                good = rets == {"phi(Option::None{} | Option::Some{0: elem(Iterator::rev(Iterator::enumerate([T]::iter(Option::expect([T]::last(self.cache), '_').entries)))).0})"}
             return (good and L.need("STK"), "index is the enumerate index found in last(cache).entries, and the row popped next is that same row (LIFO)")
     if fn == TESTDATA + "::expand_c" and m:
         if re.fullmatch(r"some!\(Iterator::next\(IntoIterator::into_iter\(Iterator::collect\(Iterator::filter_map\(Iterator::enumerate\(\[T\]::iter\(" + row + r"\.entries\)\), closure\(\{closure#0\}\)\)\)\)\)\)", idx):
